@@ -91,6 +91,25 @@ def cases(ctx):
     for _ in range(ctx.n(40, 40000)):
         yield {"kind": "session", "hardware": rng.choice(["generic", "generic", "nv"]), "slots": rng.choice([2, 2, 3]),
                "steps": rng.choice([20, 40, 60]), "seed": rng.randrange(2**31)}
+    # several parity measurements of one application, each sent in its own subroutine, all results read at the very end
+    for bits in ([1, 0, 1], [0, 1, 1], [1, 1, 0], [1, 0], [0, 1]):
+        for hw in ("generic", "nv"):
+            if mine():
+                n_ = len(bits)
+                strs = []
+                for _ in range(6):
+                    letters = [rng.choice("ZZI") for _ in range(n_)]
+                    if all(c == "I" for c in letters):
+                        letters[0] = "Z"
+                    strs.append(("-" if rng.random() < 0.3 else "") + "".join(letters))
+                # (always among them: two ancilla-based measurements in a row with different results)
+                fixed = ["ZZI"[:n_] if n_ == 3 else "ZZ", "-" + ("ZZI"[:n_] if n_ == 3 else "ZZ")]
+                yield {"kind": "parity-sequence", "bits": bits, "hardware": hw, "strings": fixed + strs}
+            if mine():
+                # ... and many measurements queued in ONE subroutine (single-letter strings measure the qubit itself, in place)
+                n_ = len(bits)
+                single = ["".join("Z" if j == i % n_ else "I" for j in range(n_)) for i in range(20)]
+                yield {"kind": "parity-sequence", "bits": bits, "hardware": hw, "strings": single + ["Z" * n_, "-" + "Z" * n_], "one_subroutine": True}
     nrand = 2 if ctx.quick else 12
     for n in (1, 2, 3):
         for letters in itertools.product("IXYZ", repeat=n):
@@ -156,7 +175,7 @@ def _session(ctx, case):
             elif len(qs) == 3 and r.random() < 0.45:
                 op = "toffoli"
             else:
-                op = r.choice(["parity", "parity", "tinv", "flush", "flush", "measure", "measure1", "measure1", "close"])
+                op = r.choice(["parity", "parity", "tinv", "flush", "flush", "flush_only", "measure", "measure1", "measure1", "close"])
             log.append((op, k))
             if op == "alloc" and len(qs) < 3:
                 q = Qubit(conn)
@@ -189,6 +208,11 @@ def _session(ctx, case):
                 t_inverse(r.choice(qs))
             elif op == "flush":
                 check_flush(k)
+            elif op == "flush_only":
+                # the application sends what it has queued and reads the results later (after a later flush): results of an
+                # earlier subroutine stay what they were
+                conn.flush()
+                ctx.count("session_flushes_with_results_read_later")
             elif op == "measure1" and qs:
                 # one qubit leaves: the others keep their ids, a hole opens below or between them
                 j = r.randrange(len(qs))
@@ -222,8 +246,46 @@ class _SessionFail(Exception):
     pass
 
 
+def _parity_sequence(ctx, case):
+    """One application, a computational-basis register, a list of Z/I parity measurements: each is sent in its own subroutine
+    (flush after each), and the application reads ALL the results only after the last flush."""
+    from netqasm.sdk.qubit import Qubit
+    from netqasm.sdk.toolbox import parity_meas
+    bits, strings = case["bits"], case["strings"]
+    p = Pipe(hardware=case["hardware"], max_qubits=len(bits) + 2, script=[], default_outcome=0)
+    try:
+        with p.conn as conn:
+            qs = []
+            for b in bits:
+                q = Qubit(conn)
+                if b:
+                    q.X()
+                qs.append(q)
+            handles = []
+            for st in strings:
+                handles.append(parity_meas(qs, st))
+                if not case.get("one_subroutine"):
+                    conn.flush()
+            conn.flush()
+            want = [(sum(b for b, c in zip(bits, st.lstrip("-")) if c == "Z") + (1 if st.startswith("-") else 0)) % 2 for st in strings]
+            got = [int(h) for h in handles]
+            ctx.count("parity_results_read_after_later_flushes", len(got))
+            if got != want:
+                j = next(i for i in range(len(got)) if got[i] != want[i])
+                ctx.fail(case, f"{case['hardware']}: parity_meas of {strings} on |{''.join(map(str, bits))}>, one subroutine each, results read "
+                               f"after the last flush: result {j} ({strings[j]}) reads {got[j]}, the parity is {want[j]} (all: {got} vs {want})")
+    except Exception as e:
+        key = None
+        if case["hardware"] == "nv" and "NotAllocatedError" in str(e) and "The qubit with address 0 was not allocated" in str(e):
+            key = KF_ELECTRON
+        ctx.fail(case, f"{case['hardware']}: parity_meas of {strings} on |{''.join(map(str, bits))}>: {type(e).__name__}: {str(e)[:200]}", key=key)
+    ctx.case(case, True)
+
+
 def run_case(ctx, case):
     kind = case["kind"]
+    if kind == "parity-sequence":
+        return _parity_sequence(ctx, case)
     if kind == "session":
         _session(ctx, case)
     elif kind == "toffoli":
